@@ -30,8 +30,12 @@ static const char *const OP_NAMES[] = {"init", "select", "set_param", "get_param
 inline std::string op_to_text(const Op &o) { char b[256]; snprintf(b, sizeof b, "op %d %d %d %d %d %d %d %d %llu %llu %llu %llu", o.code, o.prec, o.h, o.s, o.p, o.api, o.idx, o.n, (unsigned long long)o.v[0], (unsigned long long)o.v[1], (unsigned long long)o.v[2], (unsigned long long)o.v[3]); return b; }
 inline bool op_from_text(const std::string &l, Op &o) { unsigned long long a, b, c, d; return sscanf(l.c_str(), "op %d %d %d %d %d %d %d %d %llu %llu %llu %llu", &o.code, &o.prec, &o.h, &o.s, &o.p, &o.api, &o.idx, &o.n, &a, &b, &c, &d) == 12 && ((o.v[0] = a), (o.v[1] = b), (o.v[2] = c), (o.v[3] = d), true); }
 
-static const char *const HANDLES[] = {"a", "b", "", "Euler 1-D", "x y", "a ", "A", "fresh-copy"};   // used verbatim by the library
-static const int NHANDLES = 7;      // slot 7 is reserved for the fresh-handle oracle
+// handle strings are used verbatim by the library: empty, blanks, case twins, a 300-character one, one that contains the " : " separator
+// of masa_list_mms and a newline-free control character; the last slot is reserved for the fresh-handle oracle
+static const std::string LONG_HANDLE(300, 'h');
+static const char *const HANDLES[] = {"a", "b", "", "Euler 1-D", "x y", "a ", "A", LONG_HANDLE.c_str(), "left : right", "tab\there", "fresh-copy"};
+static const int NHANDLES = 10;
+static const int FRESH_SLOT = 10;
 
 struct Failure { std::string prop, msg; int step; };
 
@@ -152,7 +156,7 @@ struct History {
     // ... and the value is reproducible bit for bit, immediately and from a fresh handle holding the same parameters
     EvalResult r2 = do_eval<Scalar>(api, args, idx);
     if (r2.threw != r.threw || (!r.threw && !biteq<Scalar>((Scalar)r.v, (Scalar)r2.v))) { fail("C10", std::string(ab) + ": repeated call returned " + decld(r2.v) + " after " + decld(r.v)); return; }
-    if (cfg.check_fresh) { cls["fresh_handle_comparisons"]++; std::string keep = R.selected; std::string fh = HANDLES[7];
+    if (cfg.check_fresh) { cls["fresh_handle_comparisons"]++; std::string keep = R.selected; std::string fh = HANDLES[FRESH_SLOT];
       { Quiet q; MASA::masa_init<Scalar>(fh, m.name); } SolModel fm = fresh_model<Scalar>(P, m.name); if (failed()) return;
       { Quiet q; for (auto &kv : m.params) MASA::masa_set_param<Scalar>(kv.first, (Scalar)kv.second); for (auto &kv : m.vecs) { std::vector<Scalar> v(kv.second.begin(), kv.second.end()); MASA::masa_set_vec<Scalar>(kv.first, v); } }
       fm.params = m.params; fm.vecs = m.vecs; R.handles[fh] = fm; R.selected = fh; R.has_selected = true;
@@ -192,7 +196,7 @@ struct History {
             if (n != m->params[k].first) fail("C11", "masa_display_param lists '" + n + "' where the model has '" + m->params[k].first + "'"); else if (mk != (val == "Uninitialized")) fail("C11", "masa_display_param shows '" + val + "' for " + n + " whose value is " + decld(want));
             else if (!mk) { long double shown = strtold(val.c_str(), 0); if (!(fabsl(shown - want) <= 1e-14L * fabsl(want) + 1e-320L) && !(std::isinf((double)shown) && fabsl(want) > 1e300L)) fail("C11", "masa_display_param shows " + val + " for " + n + " = " + decld(want)); } k++; }
           if (k != m->params.size()) fail("C11", "masa_display_param listed " + std::to_string(k) + " parameters, the model has " + std::to_string(m->params.size())); break; }
-      case OP_SETVEC: { SolModel *m = selm(); if (!m) break; bool valid = !m->vecs.empty() && o.n % 5 != 0; std::string n = "no_such_vector"; if (valid) { auto it = m->vecs.begin(); std::advance(it, (unsigned)o.p % m->vecs.size()); n = it->first; } int len = (unsigned)o.idx % 51; if (o.n % 4 == 1) len = 0; std::vector<Scalar> v; for (int i = 0; i < len; i++) v.push_back(decode_value<Scalar>(mix64(o.v[0] + i)));
+      case OP_SETVEC: { SolModel *m = selm(); if (!m) break; bool valid = !m->vecs.empty() && o.n % 5 != 0; std::string n = "no_such_vector"; if (valid) { auto it = m->vecs.begin(); std::advance(it, (unsigned)o.p % m->vecs.size()); n = it->first; } int len = (unsigned)o.idx % 51; if (o.n % 4 == 1) len = 0; if (o.n % 16 == 3) len = 1000 + 17 * ((unsigned)o.idx % 251); /* one vector in sixteen is long (1000..5250 entries) */ std::vector<Scalar> v; for (int i = 0; i < len; i++) v.push_back(decode_value<Scalar>(mix64(o.v[0] + i)));
           trace.back() += " " + n + " len=" + std::to_string(len); { Quiet q; masa_set_vec<Scalar>(n, v); } if (valid) { std::vector<long double> w(v.begin(), v.end()); if (w.size() != m->vecs[n].size()) cls["vector_length_change"]++; if (len == 0) cls["vector_emptied"]++; m->vecs[n] = w; cls["set_vec"]++; } else cls["set_vec_invalid_name"]++;
           check_selected<Scalar>(P, "C11", "after masa_set_vec('" + n + "')"); break; }
       case OP_GETVEC: { SolModel *m = selm(); if (!m) break; bool valid = !m->vecs.empty() && o.n % 5 != 0; std::string n = "no_such_vector"; if (valid) { auto it = m->vecs.begin(); std::advance(it, (unsigned)o.p % m->vecs.size()); n = it->first; } std::vector<Scalar> v(3, (Scalar)7); int rc; { Quiet q; rc = masa_get_vec<Scalar>(n, v); }
@@ -228,7 +232,7 @@ struct History {
       case OP_CSANITY: { SolModel *m = selm(); if (!m) break; int a, b; try { { Quiet q; a = ::masa_sanity_check(); } { Quiet q; b = masa_sanity_check<double>(); } } catch (int) { break; } if (a != b) fail("C17", "C masa_sanity_check returned " + std::to_string(a) + ", the C++ call reports " + std::to_string(b) + " (" + m->name + ")"); cls[b ? "c_sanity_nonzero_status" : "c_sanity_zero_status"]++; break; }
       case OP_CDISPLAY: { if (!selm()) break; std::string a, b; { Quiet q; ::masa_display_param(); a = q.str(); } { Quiet q; masa_display_param<double>(); b = q.str(); } if (a != b) fail("C17", "C masa_display_param prints something different from the C++ call"); break; }
       case OP_CDISPARR: { if (!selm()) break; std::string a, b; { Quiet q; ::masa_display_array(); a = q.str(); } { Quiet q; masa_display_vec<double>(); b = q.str(); } if (a != b) fail("C17", "C masa_display_array prints something different from masa_display_vec<double>"); break; }
-      case OP_CSETARR: { SolModel *m = selm(); if (!m) break; bool valid = !m->vecs.empty() && o.n % 5 != 0; std::string n = "no_such_vector"; if (valid) { auto it = m->vecs.begin(); std::advance(it, (unsigned)o.p % m->vecs.size()); n = it->first; } int len = (unsigned)o.idx % 51; if (o.n % 4 == 1) len = 0;
+      case OP_CSETARR: { SolModel *m = selm(); if (!m) break; bool valid = !m->vecs.empty() && o.n % 5 != 0; std::string n = "no_such_vector"; if (valid) { auto it = m->vecs.begin(); std::advance(it, (unsigned)o.p % m->vecs.size()); n = it->first; } int len = (unsigned)o.idx % 51; if (o.n % 4 == 1) len = 0; if (o.n % 16 == 3) len = 1000 + 17 * ((unsigned)o.idx % 251);
           // exact-size heap buffer so that AddressSanitizer sees any access beyond the announced length
           double *buf = (double *)malloc(sizeof(double) * (len ? len : 1)); for (int i = 0; i < len; i++) buf[i] = decode_value<double>(mix64(o.v[0] + i)); int nn = len; { Quiet q; ::masa_set_array(n.c_str(), &nn, buf); }
           if (nn != len) fail("C17", "C masa_set_array changed *n"); if (valid) { std::vector<long double> w(buf, buf + len); if (len == 0) cls["c_array_length_0"]++; m->vecs[n] = w; cls["c_set_array"]++; } free(buf);
